@@ -71,3 +71,32 @@ def run(ctx):
             ctx.fail("no-preamble", inp, "each raw starts with b5 62 / $+NMEA talker byte / d3 0[0-3]", [r.hex()[:40] for r in raws])
         if o["final"]:
             ctx.fail("bytes-left-unread", inp, "nothing left unread at end of iteration", o["final"].hex())
+    growing(ctx, rng)
+
+
+def growing(ctx, rng):
+    """The stream grows after the reader reported end of data, at an arbitrary byte (mid-frame included): polled
+    again, the reader may only stop when nothing is left unread, and what it returns are still slices in order."""
+    rl.install()
+    try:
+        n = 0
+        for _ in range(80 if ctx.quick() else 800):
+            s = b"".join(f for _, f in rl.clean_stream(rng, k=rng.randrange(1, 5))) if rng.random() < 0.7 else rl.garbage_stream(rng)
+            if len(s) < 2:
+                continue
+            k = rng.randrange(0, len(s))
+            for use_iter in (True, False):
+                i1, i2, unread, err = rl.run_growing(s[:k], s[k:], use_iter, qe=rng.randrange(2))
+                n += 1
+                inp = {"op": "READ-GROWING", "stream": s.hex()[:400], "grown_at": k, "iterator": use_iter}
+                raws = [r for r, _ in i1 + i2]
+                if err:
+                    ctx.fail("growing-stream-raised", inp, "iteration ends", err)
+                elif unread:
+                    ctx.fail("end-of-stream-with-data-unread", inp, "0 bytes unread", "%d bytes unread" % unread)
+                elif not rp.is_slices(raws, s):
+                    ctx.fail("not-slices-in-order", inp, "slices of the input in order", [r.hex()[:40] for r in raws][:8])
+        ctx.evaluations += n
+        ctx.count("growing_stream_runs", n)
+    finally:
+        rl.uninstall()
